@@ -1,11 +1,13 @@
 package main
 
 import (
+	"encoding/base64"
 	"time"
 	"fmt"
 	"sort"
 
 	"github.com/mimiro-io/datahub/internal/jobs"
+	"github.com/mimiro-io/datahub/internal/server"
 )
 
 var c11Hub *Hub
@@ -174,4 +176,52 @@ func init() {
 	register("c11race", genC11Race)
 	registerKind("c11.race", runC11Race)
 	childKinds["c11.race"] = true
+}
+
+// c11.end (child process): a job with a JavaScript transform (identity) and a log handler for failing entities is
+// run through the real job.Run, incremental or full sync; afterwards its stored result is read: every accepted
+// job ends with a recorded outcome, also when transform and sink are wrapped by the error handling.
+// in {"full":bool,"log":bool,"transform":bool,"sinkFails":bool}  out {"found":bool,"failed":bool,"processed":n}
+func runC11End(c *Ctx, in M) (out interface{}) {
+	h := NewHub(c, true)
+	defer h.Destroy()
+	var tr jobs.Transform
+	if getb(in, "transform") {
+		code := base64.StdEncoding.EncodeToString([]byte("function transform_entities(entities) { return entities; }"))
+		t, err := jobs.NewJavascriptTransform(quietLogger(), code, server.NewContextualStore(h.Store), h.Dsm) // as the scheduler builds it
+		if err != nil {
+			return M{"err": "transform: " + err.Error()}
+		}
+		tr = t
+	}
+	sink := &jobs.VerifSink{}
+	if getb(in, "sinkFails") {
+		sink.Fail = func(int, []*server.Entity) error { return fmt.Errorf("sink rejects everything") }
+	}
+	jobID := "c11end"
+	vj, err := jobs.NewVerifJob(h.Runner, jobID, &restartingSource{}, tr, sink, 10, getb(in, "full"), getb(in, "log"), 0, false, 0, 0, false)
+	if err != nil {
+		return M{"err": err.Error()}
+	}
+	vj.Run()
+	lastErr, processed, found := jobs.VerifLastResult(h.Runner, jobID)
+	return M{"found": found, "failed": lastErr != "", "processed": processed}
+}
+
+func genC11End(c *Ctx) {
+	for _, full := range []bool{false, true} {
+		for _, lg := range []bool{false, true} {
+			for _, tr := range []bool{false, true} {
+				for _, sf := range []bool{false, true} {
+					c.DoChild("c11.end", M{"full": full, "log": lg, "transform": tr, "sinkFails": sf}, 60*time.Second)
+				}
+			}
+		}
+	}
+}
+
+func init() {
+	register("c11end", genC11End)
+	registerKind("c11.end", runC11End)
+	childKinds["c11.end"] = true
 }
